@@ -149,10 +149,10 @@ CHECKS['C03'] = dict(
     text=('Proof over the same regenerated skeletons (thread, process, remote) with ONE graceful terminate - raised directly in a thread child, delivered by the child\'s own control thread in process and remote children (ATerm) -: for every boundary from construction-complete on, a target that '
           'runs interruptible code and propagates ends with WorkerTerminatedError and its finally/_cleanup ran (or the boundary is never reached); a '
           'target that ended on its own yields its own outcome or WorkerTerminatedError, except on the boundaries of the failure-recording handler '
-          '(refuted there: known finding; the remote kind provably has no such window). Every landing point is replayed on real thread, process and remote workers; the real terminate() is exercised on '
+          '- also when the request lands in the handler that records the target\'s own failure (repaired: the run loops catch it in an outer handler; C03_handler_window_needs_the_repair shows the loss without it). Every landing point is replayed on real thread, process and remote workers; the real terminate() is exercised on '
           'running targets inside try/finally and on idle persistent workers for thread, process and remote kinds.'),
     design='5/C03',
-    note=('Known finding C03-handler-window. Time-to-death is exercised (terminate(timeout=10) must return True), not proved. The terminate protocol '
+    note=('Time-to-death is exercised (terminate(timeout=10) must return True), not proved. The terminate protocol '
           'itself (control pipe, control thread, three-hop remote chain) is modelled in C04, here the injection is placed by a tracer. ' + COMMON_NOTE),
     technique='machine-checked finite-domain proof (Coq, vm_compute) over skeletons regenerated from the source + line-level injection correspondence',
 )
